@@ -9,5 +9,7 @@ INVARIANT ModelContinuity
 INVARIANT ModelAmpFaces
 INVARIANT ModelBlankAmps
 INVARIANT ModelPerDegree
+INVARIANT ModelServices
 INVARIANT ErrorsAreExplained
 INVARIANT MutationsAreSingle
+INVARIANT InconsistentAreSo
